@@ -1128,3 +1128,43 @@ fire('c18-extra-rules-commented', 'C18',
      [(GEN, "        rule_text = ('\"%(name)s\": %(check_str)s\\n' %\n                     {'name': file_rule,", "        rule_text = ('#\"%(name)s\": %(check_str)s\\n' %\n                     {'name': file_rule,")], 'C18.KEEP-OVERRIDE')
 silent('c18-convert-no-exit-log', 'C18',
        [(GEN, "    if file_policies:\n        yaml_format_rules.append(extra_rules_text)\n", "    yaml_format_rules.append(extra_rules_text)\n")])
+
+# ------------------------------------------------------------------ C19
+fire('c19-always-passed', 'C19',
+     [(SH, "        if result:\n            print(\"passed: %s\" % key)", "        if True:\n            print(\"passed: %s\" % key)")], 'C19.POLARITY')
+fire('c19-no-failed-print', 'C19',
+     [(SH, "        else:\n            print(\"failed: %s\" % key)\n    except Exception as e:", "        else:\n            pass\n    except Exception as e:")], 'C19.POLARITY')
+fire('c19-swapped-verdicts', 'C19',
+     [(SH, "        if result:\n            print(\"passed: %s\" % key)\n        else:\n            print(\"failed: %s\" % key)",
+       "        if result:\n            print(\"failed: %s\" % key)\n        else:\n            print(\"passed: %s\" % key)")], 'C19.POLARITY')
+fire('c19-fake-no-rules', 'C19',
+     [(SH, "        self.rules = rules\n        self.conf = None", "        self.conf = None")], 'C19.DUCK')
+fire('c19-fake-no-conf', 'C19',
+     [(SH, "        self.rules = rules\n        self.conf = None\n\n        if config:", "        self.rules = rules\n\n        if config:")], 'C19.DUCK')
+fire('c19-default-name', 'C19',
+     [(SH, "    rules = policy.Rules.load(policy_data, \"default\")", "    rules = policy.Rules.load(policy_data, \"defaults\")")], 'C19.DEFAULT')
+fire('c19-no-sort', 'C19',
+     [(SH, "    for key, rule in sorted(rules.items()):", "    for key, rule in rules.items():")], 'C19.ITER')
+fire('c19-no-colon-filter', 'C19',
+     [(SH, "        if \":\" in key:\n            _try_rule(key, rule, target_data, access_data, enforcer)", "        if True:\n            _try_rule(key, rule, target_data, access_data, enforcer)")], 'C19.ITER')
+fire('c19-requested-ignored', 'C19',
+     [(SH, "    if apply_rule:\n        key = apply_rule", "    if False:\n        key = apply_rule")], 'C19.ITER')
+fire('c19-swapped-target-creds', 'C19',
+     [(SH, "        result = rule(target, access_data, o, current_rule=key)", "        result = rule(access_data, target, o, current_rule=key)")], 'C19.CALL')
+fire('c19-tool-swapped', 'C19',
+     [(SH, "        if \":\" in key:\n            _try_rule(key, rule, target_data, access_data, enforcer)", "        if \":\" in key:\n            _try_rule(key, rule, access_data, target_data, enforcer)")], 'C19.CALL')
+fire('c19-revert-f8', 'C19',
+     [(SH, """        try:
+            rule = rules[apply_rule]
+        except KeyError:
+            # No such rule and no usable default rule: the library denies
+            print("failed: %s" % key)
+            return
+""", """        rule = rules[apply_rule]
+""")], 'C19.LOOKUP')
+fire('c19-negated-result', 'C19',
+     [(SH, "        result = rule(target, access_data, o, current_rule=key)\n        if result:", "        result = rule(target, access_data, o, current_rule=key)\n        if not result:")], 'C19.POLARITY')
+silent('c19-format-style', 'C19',
+       [(SH, "            print(\"passed: %s\" % key)", "            print(\"passed: {}\".format(key))")])
+silent('c19-exception-prints', 'C19',
+       [(SH, "        print(e)\n        print(\"exception: %s\" % rule)", "        print(\"exception: %s\" % rule)")])
